@@ -168,6 +168,18 @@ func runFixtures(vdir string) (map[string]string, error) {
 					got = true
 				}
 			}
+		case strings.HasPrefix(rest, "Whenever"):
+			engine = "adversarial reachability"
+			for _, ci := range callsIn(f, shortIs("mark")) {
+				got = !reachAgainst(f, ci.(ssa.Instruction), func(b *ssa.BasicBlock) bool {
+					iff, ok := b.Instrs[len(b.Instrs)-1].(*ssa.If)
+					if !ok {
+						return false
+					}
+					cnd, _ := normCond(iff.Cond)
+					return !strings.Contains(cnd, pname(f.Params[0]))
+				})
+			}
 		case strings.HasPrefix(rest, "Draw"):
 			engine = "draw order"
 			steps, ordered := drawSeq(f, f.Params[0])
